@@ -79,8 +79,13 @@ func renderPlatform(c Case) string {
 		switch platformNames[o.Name] {
 		case "port", "read-size", "term-height", "term-width":
 			fmt.Fprintf(&sb, "      value: %d\n", o.I)
-		case "auth-bypass", "auth-no-strict-key":
+		case "auth-bypass":
 			sb.WriteString("      value: true\n")
+		case "auth-no-strict-key":
+			// the definition's key is "auth-strict-key": false reads "no strict checking" both for a
+			// library that switches it off on the mere presence of the option and for one that
+			// honours the value
+			sb.WriteString("      value: false\n")
 		case "read-delay", "timeout-ops":
 			// documented type: float (seconds) written with a decimal point
 			fmt.Fprintf(&sb, "      value: %s\n", floatSeconds(o.D))
